@@ -181,9 +181,27 @@ def install(mods):
                 'line': 0
             }
             emit('write_start', seq=seq, ld=leaf_digest(exprs))
+            fw = CONFIG.get('fail_write')
+            patched = False
+            if fw and fw.get('write') == seq:
+                # the file system fails for this rewrite: whatever the writer
+                # opens besides the output file itself cannot be created
+                import errno
+
+                def failing_open(path, *a, **kw):
+                    if str(path) != str(filename):
+                        emit('injected_write_fault', seq=seq, path=str(path))
+                        raise OSError(errno.ENOSPC,
+                                      'No space left on device', str(path))
+                    return open(path, *a, **kw)
+
+                nodeio.open = failing_open
+                patched = True
             try:
                 return orig_write(filename, exprs)
             finally:
+                if patched:
+                    del nodeio.open
                 nlines = _STATE['in_write']['line']
                 _STATE['in_write'] = None
                 after = read_file(filename)
@@ -616,17 +634,23 @@ def install(mods):
 
     def ddmin_reduce(exprs):
         emit('reduce_start', strategy='ddmin', base=leaf_digest(exprs))
-        out, ntests = orig_ddmin_reduce(exprs)
+        _STATE['in_reduce'] = _STATE.get('in_reduce', 0) + 1
+        try:
+            out, ntests = orig_ddmin_reduce(exprs)
+        finally:
+            _STATE['in_reduce'] -= 1
         emit('final', strategy='ddmin', ld=leaf_digest(out), ntests=ntests)
         return out, ntests
 
     def hier_reduce(exprs):
         emit('reduce_start', strategy='hierarchical', base=leaf_digest(exprs))
         _STATE['in_hier_reduce'] = True
+        _STATE['in_reduce'] = _STATE.get('in_reduce', 0) + 1
         try:
             out, ntests = orig_hier_reduce(exprs)
         finally:
             _STATE['in_hier_reduce'] = False
+            _STATE['in_reduce'] -= 1
         emit('final', strategy='hierarchical', ld=leaf_digest(out),
              ntests=ntests)
         if CONFIG.get('sweep'):
@@ -676,8 +700,23 @@ def install_line_monitors(mods):
             f = getattr(nodeio, name, None)
             if f is not None:
                 codes_write += budget.code_objects(f)
+    # "anywhere" failpoints (C06): the N-th statement that the main thread of
+    # the main process starts inside ddSMT's own code while a strategy is
+    # reducing - every instant at which a SIGINT can be delivered there
+    codes_any = []
+    anyw = fp is not None and ('anywhere' in fp or fp.get('count_anywhere'))
+    if anyw:
+        mlist = [checker, nodeio, nodes, ddmin, hier, mutator_utils, tmpfiles,
+                 smtlib]
+        for group, (mod, reg) in mutators.get_all_mutators().items():
+            mlist.append(mod)
+        for m in mlist:
+            codes_any += budget.code_objects(m)
+    main_pid = os.getpid()
+    any_count = [0]
     ids_delay = {id(c) for c in codes_delay}
     ids_write = {id(c) for c in codes_write}
+    ids_any = {id(c) for c in codes_any}
     rng_by_pid = {}
     snap_seen = {}
 
@@ -701,6 +740,18 @@ def install_line_monitors(mods):
 
     def cb(code, line):
         cid = id(code)
+        if anyw and cid in ids_any and _STATE.get('in_reduce') and \
+                os.getpid() == main_pid and \
+                threading.current_thread() is threading.main_thread() and \
+                _STATE['in_write'] is None:
+            any_count[0] += 1
+            _STATE['anywhere_points'] = any_count[0]
+            if fp.get('anywhere') == any_count[0]:
+                emit('failpoint', anywhere=any_count[0],
+                     where=f'{code.co_filename.split("/")[-1]}:'
+                     f'{code.co_name}:{line}', action='interrupt',
+                     writes_done=_STATE['write_seq'])
+                raise KeyboardInterrupt()
         if cid in ids_write:
             w = _STATE['in_write']
             if w is None:
@@ -738,11 +789,21 @@ def install_line_monitors(mods):
                 bump('delays_injected')
                 time.sleep(r.random() * delay.get('max_ms', 2) / 1000.0)
             return None
+        if cid in ids_any:
+            return None
         return monm.DISABLE
 
     monm.register_callback(TOOL, monm.events.LINE, cb)
-    for c in codes_delay + codes_write:
+    for c in codes_delay + codes_write + codes_any:
         monm.set_local_events(TOOL, c, monm.events.LINE)
+    if anyw:
+        import atexit
+
+        def report():
+            if os.getpid() == main_pid:
+                emit('anywhere_total', points=any_count[0])
+
+        atexit.register(report)
 
     if snaps:
         def audit(event, args):
